@@ -30,7 +30,8 @@ CLAIMED = {
             "TLC-simulated and random request sequences incl. reloads from the files and a process death injected (hook) between persist and release; "
             "TLC evaluates the C20 predicates on the recorded signatures, returned timestamps and decoded state-file contents. Every sequence runs under one of "
             "four order-preserving embeddings of heights / rounds into the 64 / 32-bit ranges (next to 2^29, 2^31, 2^62, the top of int32) and one of four "
-            "concretisations of the abstract block ids (all components differ / only the part-set hash / only the number of parts / only the block hash). Thorough tier: "
+            "concretisations of the abstract block ids (all components differ / only the part-set hash / only the number of parts / only the block hash); the abstract "
+            "timestamps are made concrete with fractions of different encoded lengths. Thorough tier: "
             "Apalache proves an inductive invariant (PrivValInd.tla, contains NoDoubleSign and PersistBeforeRelease) - unbounded in the number of steps.",
             "small-scope exhaustive design (+ inductive invariant for any number of steps); sampled request sequences for the code; atomic file replacement and secp256k1 trusted",
             "DESIGN.md 4.7, 6/C20"),
@@ -121,7 +122,9 @@ CLAIMED.update({
                "owner, nothing else changes rewards; withdrawals bounded by and subtracted from the withdrawable amount exactly.", "DESIGN.md 6/C13"),
     "C14": app("At every BeginBlock the recorded post-state must equal: stakes of each accused known validator cut by floor(p*r/100) per evidence "
                "occurrence (too small ones forfeited), its voting weight and the tallies in open proposals cut likewise, validators below the "
-               "signing threshold fully moved to unbonding with the right refund height, everything else unchanged.", "DESIGN.md 6/C14"),
+               "signing threshold fully moved to unbonding with the right refund height, everything else unchanged. The threshold is also judged on the "
+               "misses that really happened (folded over the recorded calls), not only on the record's marks: known finding D14 (marks trimmed "
+               "to an earlier, smaller window are not counted after governance enlarges the window).", "DESIGN.md 6/C14, 11.3"),
     "C15": app("Proposal lifecycle on recorded states: proposer and voters = validators last reported to consensus with their power, window/"
                "period/applying-height rules, votes only by voters inside the window with latest choice replacing, tallies = sums at every state, "
                "adoption only with >= floor(2*total/3), application not before the applying height, merge keeps unset fields, parameters switch "
